@@ -16,23 +16,44 @@ import (
 // kernel formula; Bounds; the bandwidth rules.
 
 type c12Case struct {
-	Op     string  `json:"op"` // "kde", "bw-sample", "bw-iface"
-	Xs     []mon.F `json:"xs,omitempty"`
-	Ws     []mon.F `json:"ws,omitempty"` // absent: unweighted
-	Sorted bool    `json:"sorted,omitempty"`
-	Kernel int     `json:"kernel"`
-	H      mon.F   `json:"h"`    // 0: let the library choose (Scott's rule)
-	BMin   mon.F   `json:"bmin"` // the two library fields as passed; 0,0 = no boundaries
-	BMax   mon.F   `json:"bmax"`
-	Pts    []mon.F `json:"pts,omitempty"`   // evaluation points, ascending
-	Ivs    []mon.F `json:"ivs,omitempty"`   // pairs a,b inside the support
-	First  string  `json:"first,omitempty"` // first method called on a zero-bandwidth KDE
+	Op      string  `json:"op"` // "kde", "bw-sample", "bw-iface"
+	Xs      []mon.F `json:"xs,omitempty"`
+	Ws      []mon.F `json:"ws,omitempty"` // absent: unweighted
+	Sorted  bool    `json:"sorted,omitempty"`
+	Kernel  int     `json:"kernel"`
+	H       mon.F   `json:"h"`    // 0: let the library choose (Scott's rule)
+	BMin    mon.F   `json:"bmin"` // the two library fields as passed; 0,0 = no boundaries
+	BMax    mon.F   `json:"bmax"`
+	Pts     []mon.F `json:"pts,omitempty"`     // evaluation points, ascending
+	Ivs     []mon.F `json:"ivs,omitempty"`     // pairs a,b inside the support
+	First   string  `json:"first,omitempty"`   // first method called on a zero-bandwidth KDE
+	FirstX  *mon.F  `json:"firstx,omitempty"`  // its argument (absent: the first sample value)
+	NoTotal bool    `json:"nototal,omitempty"` // skip the total-mass integral (re-parameterisation phases)
+	Re      []c12Re `json:"re,omitempty"`      // after the evaluation: re-parameterise and evaluate again
 
 	// bw-iface: what the harness type reports
 	SD  mon.F `json:"sd,omitempty"`
 	W   mon.F `json:"w,omitempty"`
 	Q25 mon.F `json:"q25,omitempty"`
 	Q75 mon.F `json:"q75,omitempty"`
+}
+
+// c12Re is one re-parameterisation of a KDE that has been evaluated: the
+// exported fields Kernel, Bandwidth, BoundaryMin, BoundaryMax are assigned on
+// the same struct (each step starts from the previous one) or on a by-value
+// copy of the struct as it stood after the first evaluation phase; then the
+// KDE is evaluated at Pts / Ivs like a new one.
+type c12Re struct {
+	Copy    bool    `json:"copy,omitempty"`
+	Kernel  int     `json:"kernel"`
+	H       mon.F   `json:"h"`
+	BMin    mon.F   `json:"bmin"`
+	BMax    mon.F   `json:"bmax"`
+	Pts     []mon.F `json:"pts,omitempty"`
+	Ivs     []mon.F `json:"ivs,omitempty"`
+	First   string  `json:"first,omitempty"`
+	FirstX  *mon.F  `json:"firstx,omitempty"`
+	NoTotal bool    `json:"nototal,omitempty"`
 }
 
 func init() {
@@ -54,6 +75,15 @@ const (
 	c12TolBW    = 1e-12 // relative, bandwidth rules
 	c12MinMass  = 0.98
 	c12EdgeSlak = 1e-9 // relative widening of Bounds before its mass is measured
+
+	// Gaussian kernel: where the reference density is above c12TailFloor
+	// (28 decades above the smallest normal float64) the library's density
+	// must be positive and agree to c12TolTail relative; "tail" as a class:
+	// reference below c12TailBelow of the largest density, where the
+	// absolute tolerance says nothing.
+	c12TailFloor = 1e-280
+	c12TolTail   = 1e-6
+	c12TailBelow = 1e-10
 )
 
 // c12Stat is the harness type handed to the bandwidth rules.
@@ -190,6 +220,176 @@ func c12JudgeBWIface(w *mon.W, c c12Case) {
 	}
 }
 
+// c12Ctx is one evaluation phase of a case: a KDE struct as it stands now
+// (k) and the parameters it is supposed to hold (c: the root case, or the
+// root case with the fields of one re-parameterisation substituted).
+type c12Ctx struct {
+	w          *mon.W
+	root       c12Case // what is stored with a violation: the whole history
+	c          c12Case // parameters of this phase
+	k          *stats.KDE
+	xs, ws     []float64
+	seen       map[float64]bool
+	xmin, xmax float64
+	maxAbs     float64 // largest |sample value|
+	bounded    bool
+	bmin, bmax float64
+	conf, desc string
+	nviol      int
+}
+
+func (t *c12Ctx) bad(kind, msg string) {
+	t.nviol++
+	if t.nviol <= 3 {
+		t.w.Violate(kind, t.desc+": "+msg, t.root)
+	}
+}
+
+// mag is the magnitude in which the images of x are formed.
+func (t *c12Ctx) mag(x float64) float64 {
+	mag := math.Max(math.Abs(x), t.maxAbs)
+	for _, b := range []float64{t.bmin, t.bmax} {
+		if !math.IsInf(b, 0) {
+			mag = math.Max(mag, math.Abs(b))
+		}
+	}
+	return mag
+}
+
+// fmaxData is the largest density of the estimate over the data points.
+func (t *c12Ctx) fmaxData(m *ref.KDEModel) float64 {
+	fmax := 0.0
+	if t.c.Kernel != ref.KDelta {
+		for _, x := range t.xs {
+			fmax = math.Max(fmax, m.PDF(x))
+			fmax = math.Max(fmax, m.BasePDF(x))
+		}
+	}
+	return fmax
+}
+
+// judgePDF holds one density value p = PDF(x) against the model. refP is
+// m.PDF(x) (unused for the delta kernel), fmax the largest density.
+func (t *c12Ctx) judgePDF(m *ref.KDEModel, x, p, refP, fmax float64, what string) {
+	w := t.w
+	if !(p >= 0) {
+		t.bad("pdf-negative", fmt.Sprintf("%sPDF(%.17g)=%g", what, x, p))
+		return
+	}
+	if t.c.Kernel == ref.KDelta {
+		// The density of point masses is not a function; what the statement
+		// and the kernel's documentation determine: it vanishes outside
+		// [BoundaryMin,BoundaryMax), and it is 0 wherever no sample value
+		// sits. With boundaries the images of x are formed in rounded
+		// arithmetic, so a point within a few ulps of a sample value is not
+		// judged.
+		switch {
+		case t.bounded && (x < t.bmin || x >= t.bmax):
+			w.Hit("delta-pdf-outside-boundaries")
+			w.HitIf(x == t.bmax && t.seen[x], "delta-pdf-at-BoundaryMax-sample")
+			w.Err("delta-PDF=0-outside", p, 0)
+			if p != 0 {
+				t.bad("delta-pdf-outside", fmt.Sprintf("%sPDF(%.17g)=%g outside [BoundaryMin,BoundaryMax), want 0", what, x, p))
+			}
+		case t.bounded && m.NearSample(x, 64*ulp(t.mag(x))), !t.bounded && t.seen[x]:
+			// at (or, with boundaries, within rounding of) a point mass
+		default:
+			w.Hit("delta-pdf-off-sample")
+			w.Err("delta-PDF=0-off-sample", p, 0)
+			if p != 0 {
+				t.bad("delta-pdf-off-sample", fmt.Sprintf("%sPDF(%.17g)=%g although no sample value equals the argument, want 0", what, x, p))
+			}
+		}
+		return
+	}
+	if !w.Err("PDF-vs-kernel-average", math.Abs(p-refP), c12TolPDF*fmax) {
+		t.bad("pdf-ref-"+t.conf, fmt.Sprintf("%sPDF(%.17g)=%.15g, %s reference %.15g (largest density %.3g)", what, x, p, c12RefName(t.conf), refP, fmax))
+		return
+	}
+	if t.c.Kernel == ref.KGaussian && refP > c12TailFloor {
+		// Gaussian kernel: every term of the (folded) average is positive, so
+		// the value is determined relative to itself, however small. The
+		// tolerance allows for the rounding of the image points (formed at
+		// magnitude mag, amplified by the slope of the log-density, at most 39
+		// per bandwidth where exp does not underflow).
+		h := m.H
+		w.HitIf(refP < c12TailBelow*fmax, "gaussian-tail")
+		tol := c12TolTail + 8*39*0x1p-52*t.mag(x)/h
+		if !(p > 0) {
+			t.bad("pdf-tail-zero", fmt.Sprintf("%sPDF(%.17g)=%g where the %s is %.6g > 0", what, x, p, c12RefName(t.conf), refP))
+		} else if !w.Err("PDF-gaussian-relative", math.Abs(p-refP)/refP, tol) {
+			t.bad("pdf-tail-relative", fmt.Sprintf("%sPDF(%.17g)=%.15g, %s reference %.15g: relative error %.3g", what, x, p, c12RefName(t.conf), refP, math.Abs(p-refP)/refP))
+		}
+	}
+}
+
+// judgeCDF holds one value f = CDF(x) against the model (refC = m.CDF(x));
+// amb says that the value was taken inside an ambiguity window.
+func (t *c12Ctx) judgeCDF(m *ref.KDEModel, x, f, refC float64, what string) (amb bool) {
+	w := t.w
+	if !(f >= -c12Slack && f <= 1+c12Slack) {
+		t.bad("cdf-range", fmt.Sprintf("%sCDF(%.17g)=%.17g outside [0,1]", what, x, f))
+		return
+	}
+	if t.c.Kernel == ref.KDelta {
+		// with boundaries the images of x are formed in rounded
+		// arithmetic: within a few ulps of a jump both sides are accepted
+		if t.bounded {
+			mag := math.Abs(x)
+			for _, b := range []float64{t.bmin, t.bmax} {
+				if !math.IsInf(b, 0) {
+					mag = math.Max(mag, math.Abs(b))
+				}
+			}
+			alo, ahi, jump := m.DeltaWindow(x, 16*ulp(mag))
+			if jump {
+				amb = true
+				w.Ambiguous()
+				if !(f >= alo-c12Slack && f <= ahi+c12Slack) {
+					t.bad("delta-cdf", fmt.Sprintf("%sCDF(%.17g)=%.17g, weighted empirical CDF %.17g (between %.17g and %.17g within 16 ulps)", what, x, f, refC, alo, ahi))
+				}
+			}
+		}
+		if !amb && !w.Err("CDF=weighted-ECDF", math.Abs(f-refC), c12Slack) {
+			t.bad("delta-cdf", fmt.Sprintf("%sCDF(%.17g)=%.17g, weighted empirical CDF %.17g", what, x, f, refC))
+		}
+		return
+	}
+	if !w.Err("CDF-vs-kernel-average", math.Abs(f-refC), c12TolCDF) {
+		t.bad("cdf-ref-"+t.conf, fmt.Sprintf("%sCDF(%.17g)=%.15g, %s reference %.15g", what, x, f, c12RefName(t.conf), refC))
+	}
+	return
+}
+
+// judgeBounds holds one result of Bounds against the model.
+func (t *c12Ctx) judgeBounds(m *ref.KDEModel, blo, bhi float64, what string) {
+	w := t.w
+	if math.IsNaN(blo) || math.IsNaN(bhi) || math.IsInf(blo, 0) || math.IsInf(bhi, 0) {
+		t.bad("bounds-finite", fmt.Sprintf("%sBounds()=(%g,%g)", what, blo, bhi))
+		return
+	}
+	if blo > bhi {
+		t.bad("bounds-order", fmt.Sprintf("%sBounds()=(%.17g,%.17g)", what, blo, bhi))
+	}
+	if blo < t.bmin || bhi > t.bmax {
+		t.bad("bounds-outside-boundaries", fmt.Sprintf("%sBounds()=(%.17g,%.17g) not inside [%g,%g]", what, blo, bhi, t.bmin, t.bmax))
+	}
+	slack := c12EdgeSlak * (math.Max(math.Abs(blo), math.Abs(bhi)) + (t.xmax - t.xmin))
+	if t.c.Kernel != ref.KDelta {
+		slack += c12EdgeSlak * m.H
+	}
+	var mass float64
+	if t.c.Kernel == ref.KDelta {
+		mass = m.PointMass(blo-slack, bhi+slack)
+	} else {
+		mass = m.CDF(bhi+slack) - m.CDF(blo-slack)
+	}
+	w.Err("Bounds-mass-deficit", math.Max(0, 1-mass), 1-c12MinMass)
+	if !(mass >= c12MinMass) {
+		t.bad("bounds-mass", fmt.Sprintf("%sBounds()=(%.17g,%.17g) holds %.6g of the mass, want >= 0.98", what, blo, bhi, mass))
+	}
+}
+
 func c12JudgeKDE(w *mon.W, c c12Case) {
 	xs := mon.Un(c.Xs)
 	var ws []float64
@@ -197,13 +397,14 @@ func c12JudgeKDE(w *mon.W, c c12Case) {
 		ws = mon.Un(c.Ws)
 	}
 	n := len(xs)
-	if n == 0 || c.Kernel < 0 || c.Kernel > 2 {
+	if n == 0 || c.Kernel < 0 || c.Kernel > 2 || (ws != nil && len(ws) != n) {
 		return
 	}
-	bounded, bmin, bmax, conf := c12Config(c)
-	kname := c12KernelName[c.Kernel]
-	desc := fmt.Sprintf("KDE{n=%d %s h=%g bounds=[%g,%g) weights=%v}", n, kname, float64(c.H), bmin, bmax, ws != nil)
-
+	for _, re := range c.Re {
+		if re.Kernel < 0 || re.Kernel > 2 {
+			return
+		}
+	}
 	smp := stats.Sample{Xs: append([]float64(nil), xs...), Sorted: c.Sorted}
 	if ws != nil {
 		smp.Weights = append([]float64(nil), ws...)
@@ -211,65 +412,224 @@ func c12JudgeKDE(w *mon.W, c c12Case) {
 	k := &stats.KDE{Sample: smp, Kernel: stats.KDEKernel(c.Kernel), Bandwidth: float64(c.H),
 		BoundaryMin: float64(c.BMin), BoundaryMax: float64(c.BMax)}
 
-	xmin, xmax := xs[0], xs[0]
+	base := c12Ctx{w: w, root: c, xs: xs, ws: ws, seen: map[float64]bool{}, xmin: xs[0], xmax: xs[0]}
 	ties := false
-	seen := map[float64]bool{}
 	for _, x := range xs {
-		xmin, xmax = math.Min(xmin, x), math.Max(xmax, x)
-		if seen[x] {
+		base.xmin, base.xmax = math.Min(base.xmin, x), math.Max(base.xmax, x)
+		base.maxAbs = math.Max(base.maxAbs, math.Abs(x))
+		if base.seen[x] {
 			ties = true
 		}
-		seen[x] = true
+		base.seen[x] = true
 	}
+	// classes of the data: inputs only
+	w.HitIf(ws != nil, "weights")
+	w.HitIf(n == 1, "n=1")
+	w.HitIf(n >= 2 && base.xmin == base.xmax, "constant-sample")
+	w.HitIf(ties, "ties")
+	w.HitIf(c.Sorted, "sorted-flag")
+
+	// phase 0: the KDE as constructed
+	t := base
+	t.c, t.k = c, k
+	if !c12JudgePhase(&t, "") {
+		return
+	}
+	if len(c.Re) == 0 {
+		return
+	}
+	// evaluate -> re-parameterise -> evaluate. KDE is a plain struct of
+	// exported fields: assigning to Kernel, Bandwidth and the boundaries of a
+	// KDE that has been evaluated, or of a by-value copy of it, is ordinary
+	// use, and the property speaks of the parameters the KDE holds when it is
+	// called.
+	used := *k // the by-value copy of the used struct, taken before any change
+	for j, re := range c.Re {
+		target, label := k, fmt.Sprintf("step %d, same KDE struct after evaluation re-parameterised to ", j+1)
+		if re.Copy {
+			cp := used
+			target, label = &cp, fmt.Sprintf("step %d, by-value copy of the evaluated KDE struct re-parameterised to ", j+1)
+			w.Hit("reparam/copy")
+		} else {
+			w.Hit("reparam/same-struct")
+		}
+		was := stats.KDE{Kernel: target.Kernel, Bandwidth: target.Bandwidth, BoundaryMin: target.BoundaryMin, BoundaryMax: target.BoundaryMax}
+		c2 := c
+		c2.Re = nil
+		c2.Kernel, c2.H, c2.BMin, c2.BMax = re.Kernel, re.H, re.BMin, re.BMax
+		c2.Pts, c2.Ivs, c2.First, c2.FirstX, c2.NoTotal = re.Pts, re.Ivs, re.First, re.FirstX, re.NoTotal
+		target.Kernel = stats.KDEKernel(re.Kernel)
+		target.Bandwidth = float64(re.H)
+		target.BoundaryMin, target.BoundaryMax = float64(re.BMin), float64(re.BMax)
+		w.HitIf(target.Kernel != was.Kernel, "reparam/kernel")
+		w.HitIf(target.Bandwidth != was.Bandwidth && target.Bandwidth != 0, "reparam/bandwidth")
+		w.HitIf(target.Bandwidth == 0, "reparam/zero-bandwidth")
+		w.HitIf(target.BoundaryMin != was.BoundaryMin || target.BoundaryMax != was.BoundaryMax, "reparam/boundaries")
+		t := base
+		t.c, t.k = c2, target
+		if !c12JudgePhase(&t, label) {
+			return
+		}
+	}
+}
+
+// c12FirstCall makes the first evaluation (op at x, or Bounds) of a KDE whose
+// Bandwidth field is zero and judges the value it returns against the model
+// at Scott's bandwidth, the documented default: the first call is a call
+// like any other. It returns the bandwidth the library stored.
+func (t *c12Ctx) firstCall(kk *stats.KDE, mbmin, mbmax float64, op string, x float64, info ref.ScottInfo, what string) (h float64, ok bool) {
+	w := t.w
+	var v, blo, bhi float64
+	var pn bool
+	var e any
+	if op != "PDF" && op != "Bounds" {
+		op = "CDF"
+	}
+	w.Hit("first-call-value/" + op)
+	switch op {
+	case "PDF":
+		w.Eval("KDE.PDF")
+		pn, e = mon.Call(func() { v = kk.PDF(x) })
+	case "Bounds":
+		// pre-flight on a twin with the bandwidth given explicitly
+		twin := *kk
+		twin.Bandwidth = info.Scott
+		if ok, msg := c12BracketOK(w, &twin, t.xmin, t.xmax); !ok {
+			t.bad("cdf-limits", what+"(bandwidth "+fmt.Sprint(info.Scott)+"): "+msg)
+			return 0, false
+		}
+		w.Eval("KDE.Bounds")
+		pn, e = mon.Call(func() { blo, bhi = kk.Bounds() })
+	default:
+		w.Eval("KDE.CDF")
+		pn, e = mon.Call(func() { v = kk.CDF(x) })
+	}
+	if pn {
+		t.bad("panic", fmt.Sprintf("%sfirst call %s with zero Bandwidth panicked: %v", what, op, e))
+		return 0, false
+	}
+	if !w.Err("zero-bandwidth=Scott", math.Abs(kk.Bandwidth-info.Scott), c12BWTol(info.Scott, len(t.xs), info.MaxAbs)) {
+		t.bad("zero-bandwidth", fmt.Sprintf("%safter the first call (%s) Bandwidth=%.17g, Scott's rule gives %.17g (s=%.17g, IQR=%.17g)", what, op, kk.Bandwidth, info.Scott, info.SD, info.IQR))
+		return 0, false
+	}
+	h = kk.Bandwidth
+	m := ref.NewKDEModel(t.xs, t.ws, t.c.Kernel, h, mbmin, mbmax)
+	// the context of the value: the boundaries of kk (those of the phase, or
+	// none for the unbounded twin)
+	tt := *t
+	tt.nviol = 0
+	tt.bmin, tt.bmax = mbmin, mbmax
+	tt.bounded = !math.IsInf(mbmin, -1) || !math.IsInf(mbmax, 1)
+	if !tt.bounded {
+		tt.conf = "none"
+	}
+	switch op {
+	case "PDF":
+		refP := 0.0
+		fmax := 0.0
+		if t.c.Kernel != ref.KDelta {
+			refP = m.PDF(x)
+			fmax = math.Max(tt.fmaxData(m), refP)
+		}
+		tt.judgePDF(m, x, v, refP, fmax, what+"first call with zero Bandwidth (model at Scott's bandwidth "+fmt.Sprint(h)+"): ")
+	case "CDF":
+		tt.judgeCDF(m, x, v, m.CDF(x), what+"first call with zero Bandwidth (model at Scott's bandwidth "+fmt.Sprint(h)+"): ")
+	case "Bounds":
+		tt.judgeBounds(m, blo, bhi, what+"first call with zero Bandwidth (model at Scott's bandwidth "+fmt.Sprint(h)+"): ")
+	}
+	t.nviol += tt.nviol
+	return h, tt.nviol == 0
+}
+
+// c12JudgePhase evaluates t.k, which is supposed to hold the parameters of
+// t.c, at the points and intervals of t.c. It reports whether the phase
+// passed.
+func c12JudgePhase(t *c12Ctx, label string) bool {
+	w, c, k, xs, ws := t.w, t.c, t.k, t.xs, t.ws
+	n := len(xs)
+	t.bounded, t.bmin, t.bmax, t.conf = c12Config(c)
+	bounded, bmin, bmax, conf := t.bounded, t.bmin, t.bmax, t.conf
+	xmin, xmax, seen := t.xmin, t.xmax, t.seen
+	kname := c12KernelName[c.Kernel]
+	t.desc = fmt.Sprintf("%sKDE{n=%d %s h=%g bounds=[%g,%g) weights=%v}", label, n, kname, float64(c.H), bmin, bmax, ws != nil)
+	bad := t.bad
 
 	// classes: inputs only
 	w.Hit(kname + "/" + conf)
-	w.HitIf(ws != nil, "weights")
 	w.HitIf(bounded && (xmin == bmin || xmax == bmax), "boundary-touching-data")
 	w.HitIf(conf == "both" && c.Kernel != ref.KDelta && float64(c.H) > bmax-bmin, "bandwidth>boundary-width")
-	w.HitIf(n == 1, "n=1")
-	w.HitIf(n >= 2 && xmin == xmax, "constant-sample")
-	w.HitIf(ties, "ties")
-	w.HitIf(c.Sorted, "sorted-flag")
 	w.HitIf(bounded && (bmin == 0 || bmax == 0), "boundary-at-zero")
 
 	h := float64(c.H)
 	if h == 0 {
 		// zero bandwidth: the first use selects Scott's rule (unweighted data)
+		if ws != nil || n < 2 {
+			return true // not in the domain (replayed or hand-made case)
+		}
 		w.Hit("zero-bandwidth")
 		info := ref.BandwidthRules(xs)
-		var pn bool
-		var e any
-		switch c.First {
-		case "PDF":
-			w.Eval("KDE.PDF")
-			pn, e = mon.Call(func() { k.PDF(xs[0]) })
-		case "Bounds":
-			// pre-flight on a twin with the bandwidth given explicitly
-			twin := *k
-			twin.Bandwidth = info.Scott
-			if ok, msg := c12BracketOK(w, &twin, xmin, xmax); !ok {
-				w.Violate("cdf-limits", desc+" (bandwidth "+fmt.Sprint(info.Scott)+"): "+msg, c)
-				return
+		if !(info.Scott > 0) || math.IsInf(info.Scott, 0) {
+			return true
+		}
+		fx := xs[0]
+		if c.FirstX != nil {
+			fx = float64(*c.FirstX)
+		}
+		fresh := func(bmn, bmx float64) *stats.KDE {
+			kk := *k
+			kk.Bandwidth = 0
+			kk.BoundaryMin, kk.BoundaryMax = bmn, bmx
+			return &kk
+		}
+		// With two boundaries the library sums image series of unbounded
+		// length, and a loop inside the library cannot be bounded from here.
+		// Every first PDF/CDF call on a doubly-bounded KDE is therefore
+		// preceded by the same first call on a twin without boundaries
+		// (itself a KDE with zero Bandwidth on first use), judged like any
+		// other. A kernel that is wrong (e.g. not a number) on first use shows
+		// there, in a call that ends, and the case stops.
+		preflight := func(op string, x float64) bool {
+			if conf != "both" {
+				return true
 			}
-			w.Eval("KDE.Bounds")
-			pn, e = mon.Call(func() { k.Bounds() })
-		default:
-			w.Eval("KDE.CDF")
-			pn, e = mon.Call(func() { k.CDF(xs[0]) })
+			w.Hit("first-call-unbounded-twin")
+			for _, o := range []string{"PDF", "CDF"} {
+				if op != "Bounds" && op != o {
+					continue
+				}
+				if _, ok := t.firstCall(fresh(0, 0), math.Inf(-1), math.Inf(1), o, x, info, "unbounded twin, "); !ok {
+					return false
+				}
+			}
+			return true
 		}
-		if pn {
-			w.Violate("panic", fmt.Sprintf("%s: first %s call with zero Bandwidth panicked: %v", desc, c.First, e), c)
-			return
+		var ok bool
+		first := c.First
+		if first != "PDF" && first != "Bounds" {
+			first = "CDF"
 		}
-		if !w.Err("zero-bandwidth=Scott", math.Abs(k.Bandwidth-info.Scott), c12BWTol(info.Scott, n, info.MaxAbs)) {
-			w.Violate("zero-bandwidth", fmt.Sprintf("%s: after the first %s call Bandwidth=%.17g, Scott's rule gives %.17g (s=%.17g, IQR=%.17g)", desc, c.First, k.Bandwidth, info.Scott, info.SD, info.IQR), c)
-			return
+		if !preflight(first, fx) {
+			return false
 		}
-		h = k.Bandwidth
+		if h, ok = t.firstCall(k, bmin, bmax, first, fx, info, ""); !ok {
+			return false
+		}
+		// further fresh zero-Bandwidth twins (k's fields by value before any
+		// use cannot be had any more; same sample, kernel, boundaries), each
+		// evaluated for the first time at another point
+		pp := mon.Un(c.Pts)
+		for j := 1; j <= 3 && len(pp) >= 4; j++ {
+			op := []string{"CDF", "PDF"}[j%2]
+			if !preflight(op, pp[j*len(pp)/4]) {
+				return false
+			}
+			if _, ok := t.firstCall(fresh(float64(c.BMin), float64(c.BMax)), bmin, bmax, op, pp[j*len(pp)/4], info, "fresh twin, "); !ok {
+				return false
+			}
+		}
 	}
 	if !(h > 0) || math.IsInf(h, 0) {
-		return
+		return true
 	}
 	m := ref.NewKDEModel(xs, ws, c.Kernel, h, bmin, bmax)
 	pts := mon.Un(c.Pts)
@@ -277,14 +637,10 @@ func c12JudgeKDE(w *mon.W, c c12Case) {
 
 	// largest density of the estimate (reference side): over the data points
 	// and the evaluation points
-	fmax := 0.0
+	fmax := t.fmaxData(m)
 	refP := make([]float64, len(pts))
 	refC := make([]float64, len(pts))
 	if c.Kernel != ref.KDelta {
-		for _, x := range xs {
-			fmax = math.Max(fmax, m.PDF(x))
-			fmax = math.Max(fmax, m.BasePDF(x))
-		}
 		for i, x := range pts {
 			refP[i] = m.PDF(x)
 			fmax = math.Max(fmax, refP[i])
@@ -295,24 +651,17 @@ func c12JudgeKDE(w *mon.W, c c12Case) {
 	}
 
 	prevX, prevC, prevAmb := math.Inf(-1), 0.0, false
-	nviol := 0
-	bad := func(kind, msg string) {
-		nviol++
-		if nviol <= 3 {
-			w.Violate(kind, desc+": "+msg, c)
-		}
-	}
 	for i, x := range pts {
 		var p, f float64
 		w.Eval("KDE.PDF")
 		if pn, e := mon.Call(func() { p = k.PDF(x) }); pn {
 			bad("panic", fmt.Sprintf("PDF(%.17g) panicked: %v", x, e))
-			return
+			return false
 		}
 		w.Eval("KDE.CDF")
 		if pn, e := mon.Call(func() { f = k.CDF(x) }); pn {
 			bad("panic", fmt.Sprintf("CDF(%.17g) panicked: %v", x, e))
-			return
+			return false
 		}
 		// classes of the point
 		w.HitIf(seen[x], "x-at-sample")
@@ -327,59 +676,23 @@ func c12JudgeKDE(w *mon.W, c c12Case) {
 			}
 		}
 
-		// laws
-		if !(p >= 0) {
-			bad("pdf-negative", fmt.Sprintf("PDF(%.17g)=%g", x, p))
-		}
-		if !(f >= -c12Slack && f <= 1+c12Slack) {
-			bad("cdf-range", fmt.Sprintf("CDF(%.17g)=%.17g outside [0,1]", x, f))
-		}
-		// reference
-		amb := false
-		if c.Kernel == ref.KDelta {
-			// with boundaries the images of x are formed in rounded
-			// arithmetic: within a few ulps of a jump both sides are accepted
-			if bounded {
-				mag := math.Abs(x)
-				for _, b := range []float64{bmin, bmax} {
-					if !math.IsInf(b, 0) {
-						mag = math.Max(mag, math.Abs(b))
-					}
-				}
-				alo, ahi, jump := m.DeltaWindow(x, 16*ulp(mag))
-				if jump {
-					amb = true
-					w.Ambiguous()
-					if !(f >= alo-c12Slack && f <= ahi+c12Slack) {
-						bad("delta-cdf", fmt.Sprintf("CDF(%.17g)=%.17g, weighted empirical CDF %.17g (between %.17g and %.17g within 16 ulps)", x, f, refC[i], alo, ahi))
-					}
-				}
-			}
-			if !amb && !w.Err("CDF=weighted-ECDF", math.Abs(f-refC[i]), c12Slack) {
-				bad("delta-cdf", fmt.Sprintf("CDF(%.17g)=%.17g, weighted empirical CDF %.17g", x, f, refC[i]))
-			}
-		} else {
-			if !w.Err("CDF-vs-kernel-average", math.Abs(f-refC[i]), c12TolCDF) {
-				bad("cdf-ref-"+conf, fmt.Sprintf("CDF(%.17g)=%.15g, %s reference %.15g", x, f, c12RefName(conf), refC[i]))
-			}
-			if !w.Err("PDF-vs-kernel-average", math.Abs(p-refP[i]), c12TolPDF*fmax) {
-				bad("pdf-ref-"+conf, fmt.Sprintf("PDF(%.17g)=%.15g, %s reference %.15g (largest density %.3g)", x, p, c12RefName(conf), refP[i], fmax))
-			}
-		}
+		// laws and reference
+		t.judgePDF(m, x, p, refP[i], fmax, "")
+		amb := t.judgeCDF(m, x, f, refC[i], "")
 		// monotone (a value taken inside an ambiguity window is not compared)
 		if !amb && !prevAmb && f < prevC-c12Slack {
 			bad("cdf-monotone", fmt.Sprintf("CDF(%.17g)=%.17g < CDF(%.17g)=%.17g", x, f, prevX, prevC))
 		}
 		prevX, prevC, prevAmb = x, f, amb
-		if nviol > 0 {
+		if t.nviol > 0 {
 			// the case is refuted; the remaining calls (integrals over a
 			// density already known to be wrong, Bounds' bracket expansion on
 			// a CDF already known to be wrong) are not made: they could only
 			// repeat the finding, or not terminate
-			return
+			return false
 		}
 		if w.WantSample() && i == len(pts)/2 {
-			w.Sample(map[string]any{"op": "KDE.PDF/CDF", "kde": desc, "x": mon.F(x), "pdf": mon.F(p), "cdf": mon.F(f), "ref_pdf": mon.F(refP[i]), "ref_cdf": mon.F(refC[i])})
+			w.Sample(map[string]any{"op": "KDE.PDF/CDF", "kde": t.desc, "x": mon.F(x), "pdf": mon.F(p), "cdf": mon.F(f), "ref_pdf": mon.F(refP[i]), "ref_cdf": mon.F(refC[i])})
 		}
 	}
 
@@ -395,13 +708,13 @@ func c12JudgeKDE(w *mon.W, c c12Case) {
 			}
 			return v, true
 		}
-		if hi > lo {
+		if hi > lo && !c.NoTotal {
 			if tot, ok := integ(lo, hi); ok {
 				if !w.Err("total-mass", math.Abs(tot-1), c12TolInt) {
 					bad("total-mass-"+conf, fmt.Sprintf("integral of PDF over the support [%g,%g] = %.12g, want 1", lo, hi, tot))
 				}
 			} else {
-				return
+				return false
 			}
 		}
 		for j := 0; j+1 < len(c.Ivs); j += 2 {
@@ -411,13 +724,13 @@ func c12JudgeKDE(w *mon.W, c c12Case) {
 			}
 			in, ok := integ(a, b)
 			if !ok {
-				return
+				return false
 			}
 			var fa, fb float64
 			w.EvalN("KDE.CDF", 2)
 			if pn, e := mon.Call(func() { fa, fb = k.CDF(a), k.CDF(b) }); pn {
 				bad("panic", fmt.Sprintf("CDF(%g or %g) panicked: %v", a, b, e))
-				return
+				return false
 			}
 			if !w.Err("integral-PDF-vs-CDF", math.Abs(in-(fb-fa)), c12TolInt) {
 				bad("pdf-integral-"+conf, fmt.Sprintf("integral of PDF over [%.17g,%.17g] = %.12g but CDF difference = %.12g", a, b, in, fb-fa))
@@ -425,45 +738,23 @@ func c12JudgeKDE(w *mon.W, c c12Case) {
 		}
 	}
 
-	if nviol > 0 {
-		return
+	if t.nviol > 0 {
+		return false
 	}
 
 	// Bounds
 	if ok, msg := c12BracketOK(w, k, xmin, xmax); !ok {
 		bad("cdf-limits", msg)
-		return
+		return false
 	}
 	var blo, bhi float64
 	w.Eval("KDE.Bounds")
 	if pn, e := mon.Call(func() { blo, bhi = k.Bounds() }); pn {
 		bad("panic", fmt.Sprintf("Bounds panicked: %v", e))
-		return
+		return false
 	}
-	if math.IsNaN(blo) || math.IsNaN(bhi) || math.IsInf(blo, 0) || math.IsInf(bhi, 0) {
-		bad("bounds-finite", fmt.Sprintf("Bounds()=(%g,%g)", blo, bhi))
-		return
-	}
-	if blo > bhi {
-		bad("bounds-order", fmt.Sprintf("Bounds()=(%.17g,%.17g)", blo, bhi))
-	}
-	if blo < bmin || bhi > bmax {
-		bad("bounds-outside-boundaries", fmt.Sprintf("Bounds()=(%.17g,%.17g) not inside [%g,%g]", blo, bhi, bmin, bmax))
-	}
-	slack := c12EdgeSlak * (math.Max(math.Abs(blo), math.Abs(bhi)) + (xmax - xmin))
-	if c.Kernel != ref.KDelta {
-		slack += c12EdgeSlak * h
-	}
-	var mass float64
-	if c.Kernel == ref.KDelta {
-		mass = m.PointMass(blo-slack, bhi+slack)
-	} else {
-		mass = m.CDF(bhi+slack) - m.CDF(blo-slack)
-	}
-	w.Err("Bounds-mass-deficit", math.Max(0, 1-mass), 1-c12MinMass)
-	if !(mass >= c12MinMass) {
-		bad("bounds-mass", fmt.Sprintf("Bounds()=(%.17g,%.17g) holds %.6g of the mass, want >= 0.98", blo, bhi, mass))
-	}
+	t.judgeBounds(m, blo, bhi, "")
+	return t.nviol == 0
 }
 
 // c12BracketOK is the M-step stand-in for KDE.Bounds, which calls KDE.CDF
@@ -693,6 +984,13 @@ func c12Points(rng *mon.Rand, c *c12Case, h float64, npts, nivs int) {
 	add(xmax + far*rng.Uniform(0.5, 2))
 	add(lo - 0.05*width*rng.Float64())
 	add(hi + 0.05*width*rng.Float64())
+	if c.Kernel == ref.KGaussian {
+		// the tails: 5 to 37 bandwidths beyond the data (exp underflows at 38.6)
+		add(xmin - rng.Uniform(5, 37)*h)
+		add(xmax + rng.Uniform(5, 37)*h)
+		xi := xs[rng.Intn(len(xs))]
+		add(xi + rng.Sign()*rng.Uniform(6.5, 12)*h)
+	}
 	for len(pts) < npts {
 		add(rng.Uniform(lo-0.02*width, hi+0.02*width))
 	}
@@ -725,8 +1023,73 @@ func c12Points(rng *mon.Rand, c *c12Case, h float64, npts, nivs int) {
 }
 
 func c12Hash(c c12Case) uint64 {
-	return mon.NewHasher().S(c.Op).Fs(mon.Un(c.Xs)).Fs(mon.Un(c.Ws)).I(c.Kernel).F(float64(c.H)).F(float64(c.BMin)).F(float64(c.BMax)).
-		F(float64(c.SD)).F(float64(c.W)).F(float64(c.Q25)).F(float64(c.Q75)).Sum()
+	hs := mon.NewHasher().S(c.Op).Fs(mon.Un(c.Xs)).Fs(mon.Un(c.Ws)).I(c.Kernel).F(float64(c.H)).F(float64(c.BMin)).F(float64(c.BMax)).
+		F(float64(c.SD)).F(float64(c.W)).F(float64(c.Q25)).F(float64(c.Q75))
+	for _, re := range c.Re {
+		cp := 0
+		if re.Copy {
+			cp = 1
+		}
+		hs = hs.I(cp).I(re.Kernel).F(float64(re.H)).F(float64(re.BMin)).F(float64(re.BMax))
+	}
+	return hs.Sum()
+}
+
+// c12ReGen draws one re-parameterisation of the KDE of case c (current
+// parameters kernel, h, bmin/bmax as library fields): what = 0 bandwidth, 1
+// kernel, 2 boundaries, 3 all of them. zeroOK allows the new Bandwidth 0
+// (Scott's rule selected again; scott is its value).
+func c12ReGen(rng *mon.Rand, c *c12Case, cp bool, what int, kernel int, h float64, bminF, bmaxF float64, zeroOK bool, scott float64) c12Re {
+	xs := mon.Un(c.Xs)
+	xmin, xmax := c12MinMax(xs)
+	spread := xmax - xmin
+	if !(spread > 0) {
+		spread = h // constant sample: the bandwidth was tied to the scale
+	}
+	re := c12Re{Copy: cp, Kernel: kernel, H: mon.F(h), BMin: mon.F(bminF), BMax: mon.F(bmaxF), NoTotal: true}
+	h2 := h
+	if what == 0 || what == 3 {
+		h2 = h * rng.Pick(0.1, 0.25, 0.5, 2, 4, 10)
+		h2 = math.Min(math.Max(h2, 0.02*spread), 50*spread)
+		if h2 == h {
+			h2 = h * rng.Pick(0.5, 2)
+		}
+		if zeroOK && rng.Intn(3) == 0 {
+			h2 = 0
+		}
+	}
+	if what == 1 || what == 3 {
+		re.Kernel = (kernel + 1 + rng.Intn(2)) % 3
+	}
+	if what == 2 || what == 3 {
+		conf2 := rng.Intn(4)
+		b0, b1 := c12Boundaries(rng, conf2, xmin, xmax, spread)
+		if b0 == bminF && b1 == bmaxF {
+			b0, b1 = c12Boundaries(rng, (conf2+1)%4, xmin, xmax, spread)
+		}
+		re.BMin, re.BMax = mon.F(b0), mon.F(b1)
+	}
+	tmp := c12Case{Xs: c.Xs, Kernel: re.Kernel, BMin: re.BMin, BMax: re.BMax}
+	_, m0, m1, cf := c12Config(tmp)
+	heff := h2
+	if h2 == 0 {
+		heff = scott
+	} else if cf == "both" && h2 > 50*(m1-m0) {
+		h2 = 50 * (m1 - m0) * rng.Uniform(0.5, 1)
+		heff = h2
+	}
+	re.H = mon.F(h2)
+	c12Points(rng, &tmp, heff, 18, 2)
+	re.Pts, re.Ivs = tmp.Pts, tmp.Ivs
+	if h2 == 0 {
+		re.First = []string{"CDF", "PDF", "Bounds"}[rng.Intn(3)]
+		fx := mon.F(float64(tmp.Pts[rng.Intn(len(tmp.Pts))]))
+		if rng.Bool() {
+			fx = mon.F(xs[rng.Intn(len(xs))])
+		}
+		re.FirstX = &fx
+	}
+	return re
 }
 
 // c12Data draws a sample: n values, location and scale.
@@ -756,11 +1119,15 @@ func c12Data(rng *mon.Rand, n int, maxCentre float64) (xs []float64, scale float
 }
 
 func c12Run(r *mon.Run) {
-	r.Rule("KDEs over samples of 1..40 values (uniform, clustered, tied lattice, normal, outlier, constant; location up to 1000 spreads from the origin), optional positive weights, 3 kernels, bandwidth 0.02..50 spreads (or 0 = Scott's rule, unweighted data with positive IQR), 4 boundary configurations at distance 0..100 spreads; per KDE: 60 points (data points and their neighbours, kernel ends, boundaries and their neighbours, outside the boundaries, far away, uniform over the support), 6 sub-interval integrals plus the total mass, Bounds. Plus an enumerated family of small integer samples, and the bandwidth rules on Samples and on a harness type. Non-trivial = hits a class; distinct by hash of (data, weights, kernel, bandwidth, boundaries).")
+	r.Rule("KDEs over samples of 1..40 values (uniform, clustered, tied lattice, normal, outlier, constant; location up to 1000 spreads from the origin), optional positive weights, 3 kernels, bandwidth 0.02..50 spreads (or 0 = Scott's rule, unweighted data with positive IQR), 4 boundary configurations at distance 0..100 spreads; per KDE: 60 points (data points and their neighbours, kernel ends, boundaries and their neighbours, outside the boundaries, far away, uniform over the support), 6 sub-interval integrals plus the total mass, Bounds; Gaussian kernel: also points 5..37 bandwidths beyond the data (tails). Call histories: a zero-Bandwidth KDE's first call (PDF, CDF or Bounds, at a sample value or any point) is judged by value, as are first calls of three more fresh zero-Bandwidth twins at other points; every fourth random KDE (and half of the zero-bandwidth ones) is, after its evaluation, re-parameterised (Bandwidth and/or Kernel and/or boundaries assigned; in the zero-bandwidth class also Bandwidth set back to 0) on the same struct and on a by-value copy of the struct as first used, and each is evaluated again (about 30 points, 2 integrals, Bounds) against the model of the new parameters. Plus an enumerated family of small integer samples, and the bandwidth rules on Samples and on a harness type. Non-trivial = hits a class; distinct by hash of (data, weights, kernel, bandwidth, boundaries).")
 	r.Assume("reference: weighted kernel average written from the definition (Neumaier sums), explicit mirror-image sums for the folded estimate (Gaussian images beyond 12 bandwidths dropped: < 5e-32 of the peak), window masses evaluated in the well-conditioned tail; self-tested at start-up against hand-computed values, the 384-bit normal CDF and its own integrals; Go's math.Exp/Erf/Erfc are trusted",
 		"in-domain: data inside [BoundaryMin,BoundaryMax]; positive weights; zero Bandwidth only with unweighted data, n >= 2 and positive IQR (weighted standard deviation is not implemented by the library and panics by design); finite evaluation points",
 		"no step budget inside Bounds itself: KDE.Bounds calls KDE.CDF directly, there is no harness callback to count. Stand-in: before every Bounds call the harness walks away from the data in doubling steps and requires the library's CDF to reach 0.005 / 0.995 within 2200 evaluations per side (else violation, Bounds not called); a case already refuted at its evaluation points is not continued. Any other non-termination can only trip the watchdog (inconclusive)",
-		"ambiguity window: delta kernel with boundaries, evaluation point within 16 ulps of a sample value (the images of the point are formed in rounded arithmetic): the values of the empirical CDF on both sides of the jump are accepted")
+		"ambiguity window: delta kernel with boundaries, evaluation point within 16 ulps of a sample value (the images of the point are formed in rounded arithmetic): the values of the empirical CDF on both sides of the jump are accepted",
+		"delta kernel density: only what the statement and the kernel's documentation determine is asserted: PDF = 0 outside [BoundaryMin,BoundaryMax) (also at BoundaryMax when a sample sits there) and PDF = 0 at a point where no sample value sits (with boundaries: no sample value within 64 ulps, images are formed in rounded arithmetic); at a sample value only PDF >= 0",
+		"Gaussian kernel: besides the absolute tolerance 1e-9 x largest density, wherever the reference density exceeds 1e-280 the library's density must be positive and agree to 1e-6 relative (+ 312 eps x magnitude/bandwidth for the rounding of image points): every term of the plain and of the folded average is positive, so no cancellation can occur; the reference extends its image sums to 39 bandwidths there. Not asserted for the CDF (differences of kernel CDFs cancel) nor for Epanechnikov (1-u^2 cancels at the kernel edge)",
+		"first call of a doubly-bounded zero-Bandwidth KDE: preceded by the same first call on a twin without boundaries (an in-domain KDE itself), judged by value; if that is refuted the doubly-bounded call, whose image series inside the library has no bound the harness could enforce, is not made",
+		"a non-finite library value where the reference is finite is a violation (NaN fails every comparison); the reference returns NaN instead of looping for non-finite parameters")
 	if err := ref.KDESelfTest(); err != nil {
 		r.Inconclusive("reference self-test failed: " + err.Error())
 		return
@@ -773,7 +1140,10 @@ func c12Run(r *mon.Run) {
 	}
 	gates = append(gates, "weights", "boundary-touching-data", "bandwidth>boundary-width", "zero-bandwidth",
 		"x-at-sample", "x-at-boundary", "x-outside-boundaries", "x-at-kernel-edge", "n=1", "ties",
-		"bw-harness-type", "bw-robust-branch", "bw-stddev-branch")
+		"bw-harness-type", "bw-robust-branch", "bw-stddev-branch",
+		"first-call-value/PDF", "first-call-value/CDF", "first-call-value/Bounds", "first-call-unbounded-twin",
+		"reparam/same-struct", "reparam/copy", "reparam/bandwidth", "reparam/kernel", "reparam/boundaries", "reparam/zero-bandwidth",
+		"delta-pdf-outside-boundaries", "delta-pdf-at-BoundaryMax-sample", "delta-pdf-off-sample", "gaussian-tail")
 	r.Gate(gates...)
 
 	const npts, nivs = 60, 6
@@ -835,6 +1205,13 @@ func c12Run(r *mon.Run) {
 		}
 		c.BMin, c.BMax = mon.F(bmin), mon.F(bmax)
 		c12Points(rng, &c, h, npts, nivs)
+		if (i/12)%4 == 1 {
+			// evaluate -> re-parameterise -> evaluate: on the same struct, then
+			// on a by-value copy of the struct as first used
+			r1 := c12ReGen(rng, &c, false, rng.Intn(4), kernel, h, bmin, bmax, false, 0)
+			r2 := c12ReGen(rng, &c, true, rng.Intn(4), kernel, h, bmin, bmax, false, 0)
+			c.Re = []c12Re{r1, r2}
+		}
 		c12Judge(w, c)
 		w.Distinct(c12Hash(c))
 	})
@@ -871,6 +1248,19 @@ func c12Run(r *mon.Run) {
 		bmin, bmax := c12Boundaries(rng, (i/9)%4, xmin, xmax, spread)
 		c.BMin, c.BMax = mon.F(bmin), mon.F(bmax)
 		c12Points(rng, &c, info.Scott, npts, nivs)
+		// the argument of the first call: a sample value or any of the points
+		fx := mon.F(xs[rng.Intn(len(xs))])
+		if rng.Bool() {
+			fx = c.Pts[rng.Intn(len(c.Pts))]
+		}
+		c.FirstX = &fx
+		if (i/36)%2 == 1 {
+			// after use the Bandwidth field holds Scott's value: re-parameterise
+			// the same struct and a copy, with zero Bandwidth allowed again
+			r1 := c12ReGen(rng, &c, false, rng.PickI(0, 1, 3), c.Kernel, info.Scott, bmin, bmax, true, info.Scott)
+			r2 := c12ReGen(rng, &c, true, rng.PickI(0, 3), c.Kernel, info.Scott, bmin, bmax, true, info.Scott)
+			c.Re = []c12Re{r1, r2}
+		}
 		c12Judge(w, c)
 		w.Distinct(c12Hash(c))
 	})
